@@ -81,8 +81,6 @@ func (ce *CEnv) eval(e *CExpr) Val {
 				panic(ce.errf(e, "ok0 used in a function without api"))
 			}
 			return SV{T: ce.ok0}
-		case "P":
-			return SV{T: ce.ex.P}
 		}
 		if t, ok := ce.bound[e.S]; ok {
 			return SV{T: t}
@@ -97,6 +95,9 @@ func (ce *CEnv) eval(e *CExpr) Val {
 		}
 		if v, ok := ce.lookup(e.S); ok {
 			return v
+		}
+		if e.S == "P" {
+			return SV{T: ce.ex.P} // the BN254 scalar field modulus (a program variable named P shadows it)
 		}
 		if c, ok := ce.ex.prog.Lib.Consts[e.S]; ok {
 			return SV{T: c}
